@@ -50,6 +50,7 @@ func runC09(c *core.Ctx) {
 	flowRule(c)
 	fanoutRule(c)
 	mechanicsRules(c)
+	builderStateRule(c)
 }
 
 // unrollRankingLoop evaluates `for i, c := range <local array literal of constants> { m[c] = f(i) }` for the map update mu:
@@ -1676,4 +1677,63 @@ func globalWrites(fn *ssa.Function) []string {
 		}
 	}
 	return out
+}
+
+// builderStateRule (C09-FLOW #stateless): the result of Build is a function of the builder's current settings. The
+// setters (methods answering the builder itself) are the only methods of BatchDataCodingEncoder that write its fields: a
+// candidate set, codec or result remembered by Build or one of its helpers survives a later setter call (C09-29).
+func builderStateRule(c *core.Ctx) {
+	n := 0
+	for fn := range ssaFunctions(c.Prog) {
+		if fn.Pkg == nil || load.Rel(fn.Pkg.Pkg.Path()) != "." && load.Rel(fn.Pkg.Pkg.Path()) != "" || fn.Signature.Recv() == nil || len(fn.Params) == 0 {
+			continue
+		}
+		rt := fn.Signature.Recv().Type()
+		if p, ok := rt.(*types.Pointer); ok {
+			rt = p.Elem()
+		}
+		nm, ok := rt.(*types.Named)
+		if !ok || nm.Obj().Name() != "BatchDataCodingEncoder" {
+			continue
+		}
+		setter := false
+		for i := 0; i < fn.Signature.Results().Len(); i++ {
+			if types.Identical(fn.Signature.Results().At(i).Type(), fn.Signature.Recv().Type()) {
+				setter = true
+			}
+		}
+		if setter {
+			continue
+		}
+		n++
+		recv := ssa.Value(fn.Params[0])
+		bad := ""
+		for _, b := range fn.Blocks {
+			for _, ins := range b.Instrs {
+				st, ok := ins.(*ssa.Store)
+				if !ok {
+					continue
+				}
+				a := st.Addr
+				for i := 0; i < 6; i++ {
+					switch x := a.(type) {
+					case *ssa.FieldAddr:
+						a = x.X
+						continue
+					case *ssa.IndexAddr:
+						a = x.X
+						continue
+					}
+					break
+				}
+				if a == recv && st.Addr != recv {
+					bad = "the method writes a field of the builder at " + c.Prog.Pos(st.Pos()) + ": what one Build leaves there outlives a later change of the settings, and the next Build answers for the old ones"
+				}
+			}
+		}
+		c.Decide(bad == "", "C09-FLOW", "BatchDataCodingEncoder."+fn.Name()+"#stateless", c.Prog.Pos(fn.Pos()), "not a setter, and writes no field of the builder", bad)
+	}
+	if n == 0 {
+		c.Broken("C09-FLOW", "BatchDataCodingEncoder#stateless", "no non-setter method of the builder found")
+	}
 }
